@@ -126,6 +126,68 @@ def work_pinned(item):
     return res
 
 
+def work_batch(item):
+    """Several family shapes in one program (one `@ i` section each); the mutable places carry over from section
+    to section, in the program and in the model alike."""
+    fam, kind, place, in_fn, shapes = item
+    state = dict(eo.INIT_STATE)
+    stmts, expected, stats = [], [], {}
+    for i, (sid, shape) in enumerate(shapes):
+        if fam == "disturb":
+            tree = eo.build_family_tree(shape, eo.disturb_leaf(place))
+        elif fam == "fold":
+            tree = eo.build_family_tree(shape, eo.fold_leaf)
+        else:
+            tree = shape
+        reset = ""
+        if place is not None:
+            # every section starts from the initial value of its place, so one deviating section cannot cascade
+            state[place] = eo.INIT_STATE[place]
+            reset = "%s = %s\n" % (eo.VAR_SRC[place], eo.fmt(eo.INIT_STATE[place]))
+        log, val, skipped, st = eo.evaluate(tree, None, MODE, state)
+        for k, v in st.items():
+            stats[k] = stats.get(k, 0) + v
+        text = eo.render(tree)
+        if in_fn:
+            stmts.append("print \"@ %d\"\n%sw%d = fn() {\n  print %s\n}\nw%d()\n" % (i, reset, i, text, i))
+        else:
+            stmts.append("print \"@ %d\"\n%sprint %s\n" % (i, reset, text))
+        expected.append((sid, log, val, skipped, text))
+    src = eo.PRELUDE + "".join(stmts)
+    r = run_src(src)
+    res = {"kind": "batch", "id": "%s:%s" % (fam, kind), "stats": stats, "runs": 1, "sections": 0, "problems": [],
+           "rejected": None, "inconclusive": None, "lines": 0, "sample": None, "ids": [], "not_compared": 0}
+    if r.cls in ("wall_timeout", "spawn_error", "cpu_timeout"):
+        res["inconclusive"] = "%s: %s" % (res["id"], r.cls)
+        return res
+    if rejected(r):
+        res["rejected"] = (r.out + r.err)[-500:]
+        res["reject_src"] = "".join(stmts)[:400]
+        return res
+    secs = split_sections(r.lines())
+    for i, (sid, log, val, skipped, text) in enumerate(expected):
+        obs = secs.get(str(i))
+        ok = r.cls == 'ok' or (obs is not None and str(i + 1) in secs)
+        if obs is None and r.cls != 'ok':
+            res["not_compared"] += 1          # the program died in an earlier section (already reported)
+            continue
+        res["sections"] += 1
+        res["ids"].append(sid)
+        res["lines"] += len(log) + 1
+        dev = eo.classify(log, val, obs or [], skipped, ok)
+        if dev:
+            res["problems"].append({"deviation": dev, "case": sid, "expression": text, "expected_lines": log + [val],
+                                    "observed_lines": obs, "section": i,
+                                    "note": "section %d of a batch (replay runs the whole batch); the place is reset to "
+                                            "its initial value before every section" % i,
+                                    "run": r.brief() if dev == "failure" else {"cls": r.cls},
+                                    "batch": [e[4] for e in expected], "in_fn": in_fn, "files": {"main.ms": src}})
+    if not res["problems"] and fam == "disturb" and expected:
+        sid, log, val, _, text = expected[len(expected) // 2]
+        res["sample"] = {"family": res["id"], "shape": sid, "expression": text, "expected_log": log, "value": val}
+    return res
+
+
 def work_random(seed):
     g = eo.gen_random(seed, 4)
     res = {"kind": "rand", "id": str(seed), "stats": {}, "runs": 0, "sections": 0, "problems": [], "rejected": None,
@@ -134,11 +196,18 @@ def work_random(seed):
         res["inconclusive"] = "generator gave up for seed %s" % seed
         return res
     tree, helpers, ctx, ty = g["tree"], g["helpers"], g["context"], g["type"]
-    log, val, skipped, st = eo.evaluate(tree, helpers, MODE)
     src, repeat = eo.program(tree, helpers, ctx, ty)
-    if ctx == 'concat':
-        val = "v=" + val
-    exp = (log + [val]) * repeat
+    state = dict(eo.INIT_STATE)
+    parts, exp, st = [], [], {}
+    for _ in range(repeat):
+        log, val, skipped, st1 = eo.evaluate(tree, helpers, MODE, state)
+        if ctx == 'concat':
+            val = "v=" + val
+        parts.append((log, val, skipped))
+        exp += log + [val]
+        for k, v in st1.items():
+            st[k] = st.get(k, 0) + v
+    log = parts[0][0]
     r = run_src(src)
     res.update({"stats": st, "runs": 1, "sections": 1, "lines": len(exp), "ops": eo.count_ops(tree, {}),
                 "depth": eo.depth(tree), "context": ctx, "root": eo.root_op(tree), "hash": core.h(src[len(eo.PRELUDE):]),
@@ -152,9 +221,12 @@ def work_random(seed):
         return res
     obs = r.lines()
     dev = None
-    for i in range(repeat):
-        part = obs[i * (len(log) + 1):(i + 1) * (len(log) + 1)] if repeat > 1 else obs
-        dev = eo.classify(log, val, part, skipped, r.cls == 'ok')
+    pos = 0
+    for i, (plog, pval, pskipped) in enumerate(parts):
+        last = i == len(parts) - 1
+        part = obs[pos:] if last else obs[pos:pos + len(plog) + 1]
+        pos += len(plog) + 1
+        dev = eo.classify(plog, pval, part, pskipped, r.cls == 'ok')
         if dev:
             break
     if dev:
@@ -174,6 +246,8 @@ def work(item):
         return work_tree(item[1:])
     if kind == "pin":
         return work_pinned(item[1:])
+    if kind == "batch":
+        return work_batch(item[1:])
     return work_random(item[1])
 
 
@@ -193,6 +267,19 @@ def run(ctx):
         items.append(("cat", sid, tree))
     for sid, src, exp, _ in PINNED:
         items.append(("pin", sid, eo.PRELUDE + src, exp))
+    BATCH = 40
+    n_fam = {}
+    for kind, place, in_fn, shp in eo.disturb_family():
+        n_fam["disturb:" + kind] = len(shp)
+        for q in range(0, len(shp), BATCH):
+            items.append(("batch", "disturb", kind, place, in_fn, shp[q:q + BATCH]))
+    for kind, shp in eo.fold_family():
+        n_fam["fold:" + kind] = len(shp)
+        for q in range(0, len(shp), BATCH):
+            items.append(("batch", "fold", kind, None, False, shp[q:q + BATCH]))
+    nilc = eo.nil_catalogue()
+    n_fam["fold:nil"] = len(nilc)
+    items.append(("batch", "foldcat", "nil", None, False, nilc))
     nrand = ctx.n(3000, 45000)
     for i in range(nrand):
         items.append(("rand", "%d/%d" % (ctx.seed, i)))
@@ -203,7 +290,7 @@ def run(ctx):
            "random_root_operators": {}, "random_depth_histogram": {}, "random_with_generated_helpers": 0,
            "max_log_length": 0}
     rejected_examples = []
-    samples_shape, samples_rand = [], []
+    samples_shape, samples_rand, samples_fam = [], [], []
     for status, res in results:
         if status != "ok":
             out.inconclusive.append(str(res)[-400:])
@@ -235,6 +322,12 @@ def run(ctx):
                 out.distinct.add(res["hash"])
             if res["sample"] and len(samples_rand) < 2:
                 samples_rand.append(res["sample"])
+        elif res["kind"] == "batch":
+            for sid in res["ids"]:
+                out.distinct.add(core.h([res["id"], sid]))
+            agg["family_sections_not_compared"] = agg.get("family_sections_not_compared", 0) + res["not_compared"]
+            if res["sample"] and len(samples_fam) < 1:
+                samples_fam.append(res["sample"])
         else:
             out.distinct.add(core.h(res["id"]))
             if res["sample"] and len(samples_shape) < 2 and "rec" in res["id"] and "and" in res["id"]:
@@ -242,6 +335,8 @@ def run(ctx):
         for prob in res["problems"]:
             if res["kind"] == "rand":
                 sig = "C15:random:%s:%s" % (res["root"], prob["deviation"])
+            elif res["kind"] == "batch":
+                sig = "C15:%s:%s:%s" % (res["id"], prob["case"], prob["deviation"])
             else:
                 sig = "C15:%s:%s" % (res["id"], prob["deviation"])
             what = "%s: %s differs from left-to-right, exactly-once evaluation with short-circuit" % (
@@ -249,13 +344,12 @@ def run(ctx):
             if res["kind"] == "pin":
                 what = [p[3] for p in PINNED if p[0] == res["id"]][0]
             out.violations.append(core.Violation(sig, what, prob))
-    out.samples = samples_shape + samples_rand
+    out.samples = samples_shape + samples_fam + samples_rand
+    agg["family_sections"] = n_fam
     agg["rejected_examples"] = rejected_examples
-    agg["avoidance_rules"] = {"index_result_under_unary": "an index / map-index expression (or a call of a helper that "
-                              "returns one directly) is never generated as the operand of unary minus or `!`: the "
-                              "element pointer is not dereferenced by `neg` / `not`; pinned by pin:neg_of_index / "
-                              "pin:not_of_index.  Lifted since the repairs in /repo: index expressions as list-literal "
-                              "elements, as operands of && / ||, and as directly returned values are generated."}
+    agg["avoidance_rules"] = {"none": "index_result_under_unary was lifted after the repair of neg / not on element "
+                              "pointers: index, map-index and field expressions are generated in every operand position; "
+                              "pin:neg_of_index / pin:not_of_index stay as guards"}
     agg["model_mode"] = MODE
     out.coverage.update(agg)
     out.exhaustive = True
@@ -263,8 +357,15 @@ def run(ctx):
                 "set {-, <, f2(a,b), (mk(a)).m1(b), (ls2(a,b))[t%%2], (lb2(p,q))[t%%2], (o) or i, &&, ||, (map{a:b})[t-c]} with leaves "
                 "{t, ra (recursive helper), tb, topt}, plus root-only [a,b] / map{a:b}; one program per shape containing "
                 "every valuation (tb value, topt presence, map-key hit/miss) as its own section; arity catalogue f0..f4, "
-                "(mk).m0..m4, ov.m0..m4 x argument kinds {t, t-t, ra, rb}.  exhaustive=true refers to this part.  "
-                "Random part: %d seeded trees of depth <= 4 over the full operator set in 8 statement contexts.  "
+                "(mk).m0..m4, ov.m0..m4 x argument kinds {t, t-t, ra, rb}; DISTURBANCE family: a read of a mutable place (V) "
+                "and a sibling call mutating exactly that place (M) at every position of every depth <= 3 shape over "
+                "{-, <, ==, f2, (mk).m1, (ls2)[..], [a,b][0|1], [a,b], map{a:b}, \"c\"+a+b} (inner ops -, f2, m1, index), "
+                "for the places module variable, the same variable captured by a function, object field go.gf (mutated "
+                "through a method), list element gl[0] (assigned in a helper), bool variable under && || [a,b]; FOLD "
+                "family: literal leaves (0, 2, true, false, nil, present literal) next to logging leaves at every "
+                "position of the same shapes (+ *), 40 sections per program, the place reset before each.  exhaustive=true refers to these deterministic parts.  "
+                "Random part: %d seeded trees of depth <= 4 over the full operator set incl. variable reads, mutating calls "
+                "and literals as leaves, in 8 statement contexts.  "
                 "evaluations = executions of the real binary compared line by line with the model.  Non-trivial/distinct "
                 "= distinct shape id (deterministic part; every shape has >= 2 logging operands) or distinct program text "
                 "whose expected log has >= 2 lines (random part)." % nrand)
